@@ -661,7 +661,7 @@ package server
 //@   requires ds.fullSyncStarted ==> ds.fullSyncSeen != nil
 //@   ensures [C04:ack-implies-committed] result == nil && len(entities) > 0 ==> committedG && idsCommittedG
 //@   ensures [C05:lock-released] $held == old($held)
-//@   frame-assumed preserves Entity.IsDeleted, Entity.ID, Dataset.store, Dataset.fullSyncStarted, Dataset.fullSyncSeen, Dataset.fullSyncID, Dataset.fullSyncLease, Dataset.ID, Dataset.InternalID, []*server.Entity
+//@   frame-assumed preserves Entity.IsDeleted, Entity.ID, Dataset.store, Dataset.fullSyncStarted, Dataset.fullSyncSeen, Dataset.fullSyncID, Dataset.fullSyncLease, Dataset.ID, Dataset.InternalID, []*server.Entity, Cell.*
 //@   at call NewTransaction#1
 //@     ghost txnG := $result
 //@   at call UnixNano#1 before
